@@ -125,9 +125,22 @@ def c11_jobs(tier):
     return jobs
 
 
+def c19_jobs(tier):
+    if tier == "thorough":
+        return [{"name": "c19-native", "engine": "flow", "trials": 1_000_000, "require_counters": ["trials_with_parked_waiter"]},
+                {"name": "c19-miri", "engine": "flowmiri", "seeds": 2000, "require_counters": ["miri_executions"], "timeout_s": 3000}]
+    return [{"name": "c19-native", "engine": "flow", "trials": 100_000, "require_counters": ["trials_with_parked_waiter"]},
+            {"name": "c19-miri", "engine": "flowmiri", "seeds": 64, "require_counters": ["miri_executions"]}]
+
+
 CONC_NOTE = SIM_NOTE + " Concurrent histories: oracles are sound necessary conditions over intervals (happens-before from return.seq < call.seq, leases as virtual-time intervals); ambiguous attributions are skipped and counted."
 
 PROPERTIES = {
+    "C19": {"level": "exploration", "jobs": c19_jobs, "engine": "flowcheck (native threads) + Miri",
+            "technique": "runtime monitoring of a lock-free component under real threads: trace-based oracle (mutations serialised and shadowed under one mutex) with a logical lost-wake-up verdict, plus Miri's seeded scheduler, data-race and deadlock detection",
+            "level_text": "Real OS threads drive wait_for_available_space() with a hand-written executor while mutator threads call inc/dec through a wrapper that appends every counter update to a trace under the same mutex as the call it shadows. A waiter that returned must have been able to observe messages < max and then bytes < max inside its window of the trace; once all mutators are done and the final counters are below both limits, a waiter that is parked with its waker not fired can never run again, which is decided logically without a timeout; scripts where a single dec frees capacity must release every parked waiter. 10^5 (quick) / 10^6 (thorough) jittered native trials plus 64 / 2000 Miri schedules with data-race, weak-memory and deadlock checking. A sample of interleavings, not all of them.",
+            "level_note": "Trusted base: the harness executor and trace wrapper (mutators are serialised against each other by the wrapper's mutex; waiters are not), std::thread scheduling, Miri's scheduler. Held = held on the interleavings produced.",
+            "assumptions": ["FlowControl is not wired into the server; it is exercised as the free-standing public component it is"]},
     "C06": {"level": "exploration", "jobs": c06_jobs, "engine": "dvsim",
             "technique": "runtime monitoring at logical quiescence: non-destructive lost-wake-up monitor (hook stats) over seeded waiter/cancel/availability step sequences on a paused clock",
             "level_text": "The unbounded 'eventually woken' is restated as bounded progress: at a quiescent point of the paused runtime nothing can run without a new request or time passing, so a message in the backlog while a live consumer waits is a lost wake-up. Episodes interleave blocked Pulls and open StreamingPulls (batch limits 1-3) with publishes, nacks from other clients and deadline expiries, cancellations while parked, in the instant of the notification, and while the woken consumer's pull waits at a saturated mailbox; the monitor reads stats through the hook (never a probe pull) and reports only what persists over two barriers. Runs with and without seeded hook yields. Schedules are sampled.",
@@ -217,6 +230,8 @@ PROPERTIES = {
 NOT_YET = {}
 
 ENGINES = [
+    {"name": "flowcheck", "path": "/verif/harness (bin flowcheck)", "serves_properties": ["C19"],
+     "kind_free_text": "native std::thread stress with a trace oracle; the same binary under `cargo +nightly miri run` with -Zmiri-many-seeds"},
     {"name": "dvsim", "path": "/verif/harness (bin dvsim)", "serves_properties": sorted(PROPERTIES.keys()),
      "kind_free_text": "deterministic virtual-time simulator: real tonic services + generated clients in-process, paused tokio clock, seeded scheduler, client-boundary recorder, offline checkers"},
 ]
